@@ -39,7 +39,7 @@ ASSUMPTIONS = ['_RangeIterator read-ahead size is >= 1 (max_batch_size >= 1).',
 
 
 def run(ctx: Ctx):
-  for r in (r1, r2, r3, r4, r5, r6, r7):
+  for r in (r1, r2, r3, r4, r5, r6, r7, r8):
     ctx.guard(r)
 
 
@@ -580,6 +580,63 @@ def r7(ctx: Ctx):
   ctx.floor(rule, 1, n)
 
 
+def r8(ctx: Ctx):
+  rule = 'R-C09-8'
+  ctx.rule(rule, 'bucket lookup over a NON-strict offset table: the table of'
+           ' sub-sequence start offsets is [0] + running sums of lengths, so'
+           ' empty sub-sequences give equal entries (E8: ordered, not strictly).'
+           ' A position equal to a table entry must be resolved to the LAST'
+           ' sub-sequence starting there (bisect_right(...) - 1 / bisect(...) - 1),'
+           ' never directly to what bisect_left returns (the first, possibly'
+           ' empty one) — otherwise the first element behind an empty'
+           ' sub-sequence cannot be indexed')
+  from mlmverif import pat
+  ci = ctx.repo.cls('utils.iter_utils', 'MergedSequences')
+  fi = ci.methods.get('_index')
+  if fi is None:
+    raise AnalysisError(f'{rule}: MergedSequences._index not found')
+  lefts = [(n, b) for n, b in pat.search(fi.node, '$p = bisect.bisect_left($t, $i)')]
+  rights = [n for n, b in pat.search(fi.node, 'bisect.bisect_right($t, $i)', nested=True)] + [
+      n for n, b in pat.search(fi.node, 'bisect.bisect($t, $i)', nested=True)]
+  if not lefts and not rights:
+    raise AnalysisError(f'{rule}: no bisect lookup in MergedSequences._index')
+  n = 0
+  for node, b in lefts:
+    n += 1
+    pos, tab, idx = b['p'], b['t'], b['i']
+    # the equality branch: `if <idx> == <tab>[<pos>]:`
+    eqs = [x for x in walk_no_nested(fi.node) if isinstance(x, ast.If) and (
+        pat.match(f'{idx} == {tab}[{pos}]', x.test) is not None
+        or pat.match(f'{tab}[{pos}] == {idx}', x.test) is not None)]
+    bad = None
+    for e in eqs:
+      # admissible: the branch re-resolves pos with bisect_right / skips equal starts
+      re_resolved = any(isinstance(y, ast.Assign) and any(
+          isinstance(t, ast.Name) and t.id == pos for t in y.targets) and any(
+              isinstance(c, ast.Call) and unparse(c.func) in ('bisect.bisect_right', 'bisect.bisect')
+              for c in ast.walk(y.value)) for st in e.body for y in ast.walk(st))
+      skips = any(isinstance(y, ast.While) and tab in unparse(y.test) for st in e.body for y in ast.walk(st))
+      uses_pos = any(isinstance(y, ast.Return) and y.value is not None and any(
+          isinstance(z, ast.Name) and z.id == pos for z in ast.walk(y.value))
+                     for st in e.body for y in ast.walk(st))
+      if uses_pos and not (re_resolved or skips):
+        bad = e
+    if bad is not None:
+      ctx.fail(rule, fi, f'MergedSequences._index: position equal to a table entry resolved to the last sub-sequence starting there',
+               f'`{pos} = bisect.bisect_left({tab}, {idx})` followed by `if {unparse(bad.test)}:'
+               f' return ({pos}, 0)`: with an empty sub-sequence the table holds equal'
+               ' entries and bisect_left picks the empty one, so the first element'
+               ' of the next sub-sequence (and any negative index landing there)'
+               ' raises IndexError instead of indexing like the concatenation',
+               node=bad)
+    else:
+      ctx.ok(rule, fi, f'equal-entry case re-resolved past empty sub-sequences', node)
+  for r_ in rights:
+    n += 1
+    ctx.ok(rule, fi, f'{unparse(r_)[:50]} picks the last sub-sequence starting at the position', r_)
+  ctx.floor(rule, 1, n)
+
+
 from mlmverif.selfcheck import B, OK  # noqa: E402
 
 _F = 'chainables/io.py'
@@ -623,6 +680,8 @@ VARIANTS = [
     B('round-robin-swapped', _F,
       '    while self._index % num_shards != shard_index:',
       '    while self._index % shard_index != num_shards:', 'R-C09-4'),
+    B('revert-empty-subsequence-lookup', 'utils/iter_utils.py',
+      '      # Empty sequences start at the same index, take the last one of them.\n      idx_seq = bisect.bisect_right(indices, index) - 1\n', '', 'R-C09-8'),
     B('seq-idxs-not-cumulative', 'utils/iter_utils.py',
       '    self._seq_idxs.extend(itt.accumulate(map(len, self._sequences), op.add))',
       '    self._seq_idxs.extend(map(len, self._sequences))', 'R-C09-7'),
